@@ -262,6 +262,23 @@ func propC03A(r *Run) {
 		victim := users[r.Choose("victim", len(users))]
 		names := []string{"../sibling/" + victim, "../sibling/./" + victim, "/srv/whawty/sibling/" + victim, "x/../" + victim, "./" + victim, victim + "/.", "../decoy", "../base/" + victim,
 			"", ".", "..", "-dash", ".hidden", "a b", "a\nb", "sub/" + victim, ".tmp/" + victim, victim + "\x00", victim + ".user", strings.Repeat("n", 256), "../sibling/" + victim + "@example.org"}
+		// names that are short once cleaned although the string is longer than any file name
+		names = append(names, strings.Repeat("x/../", 60)+"../sibling/"+victim, strings.Repeat("x/../", 52)+victim, strings.Repeat("./", 130)+victim)
+		// a password with colons: the name / password pair can be cut at another colon, which
+		// gives a name outside the grammar and the same concatenation
+		splitPW := ""
+		if r.Choose("split-password", 2) == 1 {
+			splitPW = "pa:ss:" + victim + "-word"
+			u := &Call{Kind: "update", Via: "agent", Agent: a.idx, User: victim, PW: splitPW}
+			w.addClient([]*Call{u})
+			w.settle(nil)
+			if !u.OK {
+				r.Fail("harness/update", "password change of %s failed: %s", victim, u.Err)
+			}
+			model[victim].PW = splitPW
+			names = append(names, victim+":pa", victim+":pa", victim+":pa:ss", victim+":pa:ss")
+			r.Count("probe:name-password-cut-elsewhere")
+		}
 		logPos := len(w.fs.Log)
 		n := 3 + r.Choose("ncalls", 8)
 		var trace []string
@@ -274,8 +291,22 @@ func propC03A(r *Run) {
 			}
 			pws := []string{"sibling-" + victim, "decoy", model[victim].PW}
 			pw := pws[r.Choose("pw", len(pws))]
+			if splitPW != "" && strings.HasPrefix(name, victim+":") {
+				// the genuine login first (whatever the agent remembers about it), then the other cut
+				g := &Call{Kind: "authenticate", Via: []string{"sasl", "ldap", "basic", "api", "agent"}[r.Choose("genuine-via", 5)], Agent: a.idx, User: victim, PW: splitPW}
+				w.addClient([]*Call{g})
+				w.settle(nil)
+				if !g.OK {
+					r.Fail("harness/login", "genuine login of %s failed: %s", victim, g.Err)
+				}
+				kind = "authenticate"
+				pw = splitPW[len(name)-len(victim):]
+			}
 			if via == "sasl" && (name == "" || len(name) > 256) || via == "cli" && (name == "" || strings.HasPrefix(name, "-") || strings.Contains(name, "\x00")) {
 				continue
+			}
+			if via == "basic" && strings.Contains(name, ":") {
+				continue // not expressible: Basic credentials are cut at the first colon
 			}
 			before := w.fs.SnapshotAll()
 			ok := false
